@@ -12,6 +12,7 @@ import common as C
 import clichecks as CLI
 import layouts as L
 import lsp
+import render as R
 
 UNI = CLI.UNI
 
@@ -76,6 +77,23 @@ def run(V, tier, want, cfg="Layouts_cli.cfg"):
                     inc = srv.request("callHierarchy/incomingCalls", {"item": pc[0]})
                     rec["incoming"] = len(inc or [])
                 out["positions"].append(rec)
+            if "c05" in want:
+                # inlay type hints: the type shown next to a parameter is the return type of ONE definition
+                hints = {}
+                for slot, r in ctx.files.items():
+                    if slot in ("tp", "pl"):
+                        continue
+                    nl = r.text.count("\n") + 1
+                    hs = srv.doc_request("textDocument/inlayHint", CLI.disk_path(root, slot), {
+                        "range": {"start": {"line": 0, "character": 0}, "end": {"line": nl, "character": 0}}}) or []
+                    for h in hs:
+                        lab = h["label"] if isinstance(h["label"], str) else "".join(p["value"] for p in h["label"])
+                        hints[(slot, h["position"]["line"], h["position"]["character"])] = lab
+                for rec in out["positions"]:
+                    u = rec["u"]
+                    if u["uk"] == "p":
+                        ln, cs, ce = ctx.use_pos(u)
+                        rec["inlay"] = hints.get((u["file"], ln - 1, ce))
             for slot, r in ctx.files.items():
                 if slot == "tp":
                     continue
@@ -175,6 +193,18 @@ def run(V, tier, want, cfg="Layouts_cli.cfg"):
                         V.violation(dict(e2, hover=hv), "hover does not mention the fixture the cursor is on")
                 elif rec["hover"]:
                     V.violation(dict(e2, hover=rec["hover"]), "hover shows a fixture where go-to-definition finds none")
+                # the inlay hint next to a parameter names the return type of the definition go-to-definition selects
+                # (every file of the layout annotates its fixtures with its own type)
+                if rec.get("inlay") is not None and d is not None:
+                    dslot = next((sl for sl in ctx.files if CLI.rel_of_slot(sl) == d[0]), None)
+                    if dslot is not None:
+                        want_t = R.ret_type_of(UNI, dslot)
+                        if want_t not in rec["inlay"]:
+                            e7 = dict(e2, inlay_hint=rec["inlay"], type_of_the_definition_navigated_to=want_t)
+                            if blame:
+                                V.classify(sorted(blame | {"avail_imported_first"}), e7, "the inlay type hint describes another definition than go-to-definition navigates to")
+                            else:
+                                V.violation(e7, "the inlay type hint describes another definition than go-to-definition navigates to")
             if "c04" in want and rec["definition"] is not None:
                 # references from this usage = declaration + usages; must contain this usage (or its def line) and no duplicates
                 refs = rec["references"]
